@@ -41,10 +41,12 @@ REQUIRED = ["cases", "emitted_frames_compared", "rewrites_checked",
             "flow_hits", "packet_outs",
             "frames_with_ports_only_inside_their_payload", "table_misses",
             "released_through_a_buffer_id", "released_by_a_flow_mod",
-            "udp_checksums_that_come_out_as_zero_after_a_rewrite"]
+            "udp_checksums_that_come_out_as_zero_after_a_rewrite",
+            "ports_plugged_in_while_running"]
 TIMEOUT = {"quick": 900, "thorough": 7200}
 
 NPORTS = 5
+EXTRA_PORT = 6        # (comes and goes while the switch runs)
 DPID = 12
 CFG_BITS = [OA.PC_PORT_DOWN, OA.PC_NO_RECV, OA.PC_NO_RECV_STP, OA.PC_NO_FLOOD,
             OA.PC_NO_FWD, OA.PC_NO_PACKET_IN]
@@ -226,6 +228,22 @@ def run_case (case, rep):
   raw = case["frame"]; actions = case["actions"]; in_port = case["in_port"]
   via = case["via"]
   cfg = {int(k): v for k, v in case["cfg"].items()}
+  # a port plugged in (or pulled out again) while the switch is running: it
+  # takes part in FLOOD and ALL from the next frame on
+  try:
+    if case.get("plug") == "add" and EXTRA_PORT not in rig.cfg:
+      rig.sw.switch.add_port(rig.sw.switch.generate_port(EXTRA_PORT))
+      rig.sw.take_bytes()
+      rig.cfg[EXTRA_PORT] = 0
+      for d_ in (rig.tx, rig.rx_lo, rig.rx_hi): d_[EXTRA_PORT] = [0, 0]
+      rep.count("ports_plugged_in_while_running")
+    elif case.get("plug") == "del" and EXTRA_PORT in rig.cfg:
+      rig.sw.switch.delete_port(EXTRA_PORT)
+      rig.sw.take_bytes()
+      for d_ in (rig.cfg, rig.tx, rig.rx_lo, rig.rx_hi): d_.pop(EXTRA_PORT, None)
+  except Exception:
+    fire("plugging a port raises", traceback.format_exc()[-500:]); return True
+  if EXTRA_PORT in rig.cfg: cfg[EXTRA_PORT] = 0
   table_flow = case.get("table_flow")
   if not canonical(raw):
     rep.count("non_canonical_frames_skipped")
@@ -590,6 +608,9 @@ def gen_case (rng):
     actions = [act, dict(type=0, port=rng.choice([1, 2, 3]), max_len=0)]
   case = dict(frame=raw, in_port=in_port, actions=actions, cfg=cfg, via=via,
               desc=desc)
+  r = rng.random()
+  if r < 0.03: case["plug"] = "add"
+  elif r < 0.05: case["plug"] = "del"
   if via in ("miss",) + BUFFERED:
     if rng.random() < 0.3: case["inject_obj"] = True
     if via in BUFFERED and rng.random() < 0.3: case["release"] = "flow_mod"
